@@ -21,6 +21,7 @@ import (
 	"go/types"
 	"log"
 	"path"
+	"sort"
 	"strconv"
 	"strings"
 )
@@ -411,6 +412,7 @@ func checkXGoPkg(pkg *Package) (val ast.Expr, ok bool) {
 			deps = append(deps, depPkg.Path())
 		}
 	}
+	sort.Strings(deps) // deps were collected by ranging over a map
 	if len(deps) > 0 {
 		return astStringLit(strings.Join(deps, ",")), true
 	}
